@@ -6,6 +6,7 @@ mod calloc;
 mod common;
 mod ref_tables;
 
+mod c04;
 mod c14;
 
 #[cfg(feature = "calloc")]
@@ -21,6 +22,7 @@ fn main() {
         .build_global()
         .unwrap();
     let code = match args.check.as_str() {
+        "c04" => c04::run(&args),
         "c14" => c14::run(&args),
         other => {
             eprintln!("unknown check {other}");
